@@ -214,7 +214,11 @@ impl ClockTimestamp {
         let time_offset = if time_offset_length == 0 {
             None
         } else {
-            Some(r.read(u32::from(time_offset_length), "time_offset_length")?)
+            // time_offset is i(v): a two's complement value of time_offset_length bits
+            let len = u32::from(time_offset_length);
+            let raw: u32 = r.read(len, "time_offset_length")?;
+            let shift = 32 - len;
+            Some(((raw << shift) as i32) >> shift)
         };
         Ok(ClockTimestamp {
             ct_type,
